@@ -520,6 +520,28 @@ theorem evals_value_ref {σ ρ e v σ'} (h : Evals σ ρ e (.ok v) σ') :
   obtain ⟨_, n, hn⟩ := evals_iff.mp h
   exact model_refines_ref_value hn
 
+/-- Conversely, for values: whatever value the reference semantics assigns to `e`, the model
+computes it (with some fuel), ending in the same store. -/
+theorem ref_refines_model {m σ ρ e v τ} (h : Ref.eval m σ.erase ρ e = (.ok v, τ)) :
+    ∃ n σ', evalExpr n σ ρ e = (.ok v, σ') ∧ σ'.erase = τ := by
+  obtain ⟨σ', h₁, h₂⟩ := (conv_all m).eval h
+  obtain ⟨_, n, hn⟩ := evals_iff.mp h₁
+  exact ⟨n, σ', hn, h₂⟩
+
+/-- The model and the reference assign the same values (and final stores) to every expression. -/
+theorem model_iff_ref_value {σ ρ e v τ} :
+    (∃ n σ', evalExpr n σ ρ e = (.ok v, σ') ∧ σ'.erase = τ) ↔ ∃ m, Ref.eval m σ.erase ρ e = (.ok v, τ) := by
+  constructor
+  · rintro ⟨n, σ', h, rfl⟩; exact model_refines_ref_value h
+  · rintro ⟨m, h⟩; exact ref_refines_model h
+
+/-- … and to every application of a procedure to arguments. -/
+theorem ref_apply_refines_model {m σ p args v τ} (h : Ref.apply m σ.erase p args = (.ok v, τ)) (env : Nat) :
+    ∃ n σ', applyProcedure n σ p args env = (.ok v, σ') ∧ σ'.erase = τ := by
+  obtain ⟨σ', h₁, h₂⟩ := (conv_all m).apply (σ := enter σ) (by simpa using h) env
+  obtain ⟨_, N, hN⟩ := (AppliesProc.of_loop h₁).out
+  exact ⟨N, leave σ', hN N (Nat.le_refl _), by simpa using h₂⟩
+
 /-- A store that carries no instrumentation is its own erasure (so for such a start store the
 reference runs from the very same store). -/
 theorem erase_eq_self {σ : Store} (h₁ : σ.depth = 0) (h₂ : σ.maxDepth = 0) : σ.erase = σ := by
